@@ -31,39 +31,36 @@ template<typename E> std::string namedTok(const E &e) {
 
 std::string dimRec(const nix::Dimension &dim) {
     std::string idx = got([&]() { return std::to_string((unsigned long long) dim.index()); });
-    std::string du = got([&]() { return hexStr(nix::util::getDimensionUnit(dim)); });
     switch (dim.dimensionType()) {
     case nix::DimensionType::Range: {
         nix::RangeDimension d = dim.asRangeDimension();
         std::string t = got([&]() { std::vector<std::string> l; for (double x : d.ticks()) l.push_back(f64Tok(x)); return listTok(l); });
-        return "X R " + idx + " " + du + " " + t + " " + got([&]() { return optStr(d.unit()); });
+        return "X R " + idx + " " + t + " " + got([&]() { return optStr(d.unit()); });
     }
     case nix::DimensionType::Sample: {
         nix::SampledDimension d = dim.asSampledDimension();
-        return "X S " + idx + " " + du + " " + got([&]() { return f64Tok(d.samplingInterval()); }) + " " +
+        return "X S " + idx + " " + got([&]() { return f64Tok(d.samplingInterval()); }) + " " +
                got([&]() { return std::string(d.offset() ? "1" : "0"); }) + " " + got([&]() { return optStr(d.unit()); });
     }
     case nix::DimensionType::Set: {
         nix::SetDimension d = dim.asSetDimension();
-        return "X T " + idx + " " + du + " " + got([&]() { return std::to_string(d.labels().size()); });
+        return "X T " + idx + " " + got([&]() { return std::to_string(d.labels().size()); });
     }
     case nix::DimensionType::DataFrame: {
         nix::DataFrameDimension d = dim.asDataFrameDimension();
-        return "X F " + idx + " " + du + " " + got([&]() { return std::to_string((unsigned long long) d.size()); });
+        // the unit of the column, when a column index is set (what util::getDimensionUnit starts from)
+        return "X F " + idx + " " + got([&]() { return std::to_string((unsigned long long) d.size()); }) + " " +
+               got([&]() { return d.columnIndex() ? hexStr(d.unit()) : std::string("~"); });
     }
     }
     return "X ?";
 }
 
+// the referenced arrays by id: the model derives the units of their dimensions itself (valid::getDimensionsUnits)
 template<typename T> std::string refsTok(const T &t) {
     return got([&]() {
         std::vector<std::string> l;
-        for (auto &ref : t.references()) {
-            std::string r = "r";
-            bool first = true;
-            for (auto &dim : ref.dimensions()) { r += (first ? "" : ";") + hexStr(nix::util::getDimensionUnit(dim)); first = false; }
-            l.push_back(r);
-        }
+        for (auto &ref : t.references()) l.push_back(hexStr(ref.id()));
         return listTok(l);
     });
 }
